@@ -92,6 +92,13 @@ func ExecSched(sc sim.Script) *sim.Outcome {
 							r.val = render(v)
 						}
 					}
+				case "bgetc": // BlockCache.Get / Set on a block that IS being committed: judged by the race / panic clauses only
+					// (after its commit a block cache answers from the previous block's chain, see DESIGN.md 16.4)
+					if b := w.blk(op.B); b != nil {
+						b.bc.Get(op.Y)
+						b.bc.Stats()
+					}
+					r.skip = true
 				case "bget": // through the block cache of an uncommitted block that no task commits
 					if b := w.blk(op.B); b != nil && !b.committed && !w.commitPlanned[op.B] {
 						var v statecache.Value
